@@ -104,7 +104,8 @@ func c04TopCogFrame(stack string) string {
 		if top == "" {
 			// a trivial accessor says nothing about the mechanism: name its caller as well
 			if strings.HasPrefix(fn, "internal/ast.Type.As") || strings.HasPrefix(fn, "internal/tools.") || strings.HasPrefix(fn, "internal/orderedmap.") ||
-				strings.HasPrefix(fn, "internal/ast.Path.") || strings.HasPrefix(fn, "internal/ast.Type.Is") || strings.HasPrefix(fn, "internal/ast.Type.Implement") {
+				strings.HasPrefix(fn, "internal/ast.Path.") || strings.HasPrefix(fn, "internal/ast.Type.Is") || strings.HasPrefix(fn, "internal/ast.Type.Implement") ||
+				fn == "internal/simplecue.selectorLabel" { // the CUE label helper panics on behalf of whoever iterated / resolved the label
 				top = fn
 				continue
 			}
